@@ -128,6 +128,7 @@ type Obligation struct {
 }
 
 type Script struct {
+	axioms []string // spec axioms (emitted only when relevant to the unit)
 	lines  []string
 	obls   []*Obligation
 	nfresh int
